@@ -61,14 +61,21 @@ def native_replay(repo, con, fdef, ob, model):
     if model is None:
         out["detail"] = "could not re-derive a model in-process"
         return out
-    if not getattr(con, "pure", False):
+    if not getattr(con, "pure", False) and not getattr(fdef, "harness_text", None):
         out["detail"] = "function is not declared pure: no generic native replay (see replay driver of the property, if any)"
         return out
     try:
         params = {n: t.const("p_" + n) for n, t in con.params.items() if isinstance(t, Ty)}
         args = {n: to_python(model, v) for n, v in params.items()}
         out["args"] = {k: repr(v)[:500] for k, v in args.items()}
-        target = _real_class(fdef.qualname)
+        if getattr(fdef, "harness_text", None):
+            import importlib
+
+            ns = dict(vars(importlib.import_module(fdef.module.name)))
+            exec(fdef.harness_text, ns)  # the harness calls the real functions of the same tree
+            target = ns["h"]
+        else:
+            target = _real_class(fdef.qualname)
         call_args = dict(args)
         exc = None
         res = None
@@ -92,7 +99,11 @@ def native_replay(repo, con, fdef, ob, model):
         eng = Interp(repo, REG, ghost_decls())
         eng.st.heap = {}
         h = eng.view({}, eng.st.alloc)
-        if exc is None:
+        if exc is None and con.native_check is not None:
+            ok = bool(con.native_check(args, res))
+            out["contract_on_native_outcome"] = str(ok)
+            out["reproduced"] = not ok
+        elif exc is None:
             rv = from_python(res, con.returns) if con.returns is not None else None
             c = Ctx(eng, params, h, h, result=rv)
             if ob.kind == "post" and con.ensures is not None:
